@@ -342,6 +342,43 @@ Definition accepts (op : fop) (m : mode) : bool :=
   | _ => true
   end.
 
+(* ---- block-entry / block-exit probes on constructs OUTSIDE the replaced regions ("all other instructions and their
+   instrumentation are unaffected"): their intended placement, independent of the resolver's bookkeeping, is
+   entry = after the opener; exit of block / loop / else-arm = before the construct's end; exit of the then-arm of an
+   `if` = before its else (before its end when it has none).  [close_of] finds that position by nesting. ---- *)
+Fixpoint close_of (stop_at_else : bool) (depth : nat) (l : list (nat * fop)) : option nat :=
+  match l with
+  | [] => None
+  | (j, op) :: l' =>
+      match op with
+      | FBlock _ | FLoop _ | FIf _ => close_of stop_at_else (S depth) l'
+      | FElse => match depth with O => if stop_at_else then Some j else close_of stop_at_else depth l' | _ => close_of stop_at_else depth l' end
+      | FEnd => match depth with O => Some j | S d => close_of stop_at_else d l' end
+      | _ => close_of stop_at_else depth l'
+      end
+  end.
+(* the next else / end token in the flat stream (what an un-keyed "resolve at the next else or end" would pick, D15) *)
+Fixpoint next_else_end (l : list (nat * fop)) : option nat :=
+  match l with
+  | [] => None
+  | (j, FElse) :: _ | (j, FEnd) :: _ => Some j
+  | _ :: l' => next_else_end l'
+  end.
+Definition exit_pos (body : list fop) (i : nat) : option nat :=
+  close_of (match nth i body FEnd with FIf _ => true | _ => false end) 0 (skipn (S i) (index_from 0 body)).
+Definition opt_nat_eqb (a b : option nat) : bool :=
+  match a, b with Some x, Some y => Nat.eqb x y | None, None => true | _, _ => false end.
+Definition desugar_entry (body : list fop) (rem : list nat) (e : nat * mode * list fop) : list (nat * mode * list fop) :=
+  let '(i, m, ops) := e in
+  if mem_nat i rem then [] else
+  match m with
+  | MBlockEntry => [(i, MAfter, ops)]
+  | MBlockExit => match exit_pos body i with Some j => [(j, MBefore, ops)] | None => [] end
+  | _ => []
+  end.
+Definition desugar21 (plan : list (nat * mode * list fop)) (body : list fop) : list (nat * mode * list fop) :=
+  plan ++ flat_map (desugar_entry body (removed plan body)) plan.
+
 Definition domain21 (c : lcase) : bool :=
   let rem := removed (c_plan c) (c_body c) in
   plan_in_range (length (c_body c)) (c_plan c) && well_bracketed (c_body c)
@@ -351,16 +388,29 @@ Definition domain21 (c : lcase) : bool :=
                 match m with
                 | MBlockAlt => is_block_style (nth i (c_body c) FEnd)
                 | MBefore | MAfter | MAlternate => negb (mem_nat i rem)
-                (* a special-mode probe on a construct strictly inside a replaced region disappears with it
-                   (C18/C19/C20: it must fire "at no other time"); outside, other special modes are not C21's business *)
-                | _ => mem_nat i rem && negb (existsb (fun e' => Nat.eqb (fst (fst e')) i && mode_eqb (snd (fst e')) MBlockAlt) (c_plan c))
-                       && accepts (nth i (c_body c) FEnd) m
+                | _ =>
+                  (* a special-mode probe on a construct strictly inside a replaced region disappears with it
+                     (C18/C19/C20: it must fire "at no other time") *)
+                  (mem_nat i rem && negb (existsb (fun e' => Nat.eqb (fst (fst e')) i && mode_eqb (snd (fst e')) MBlockAlt) (c_plan c))
+                   && accepts (nth i (c_body c) FEnd) m)
+                  (* outside: block entry / exit probes keep their place; the shape of D15 (an `if` exit probe with a
+                     nested construct in the then-arm) and semantic-after are left to C16-C19 *)
+                  || (negb (mem_nat i rem) && is_block_style (nth i (c_body c) FEnd)
+                      && match m with
+                         | MBlockEntry => true
+                         | MBlockExit => match nth i (c_body c) FEnd with
+                                         | FIf _ => opt_nat_eqb (exit_pos (c_body c) i) (next_else_end (skipn (S i) (index_from 0 (c_body c))))
+                                         | _ => true
+                                         end
+                         | _ => false
+                         end)
                 end) (c_plan c).
 
 Definition holds21 (c : lcase) : bool :=
+  let plan := desugar21 (c_plan c) (c_body c) in
   match c_obs c with
   | Some (b, g) =>
-      obs_is (spec21 (c_plan c) (c_body c)) b && (groups_eqb (c_groups c) g || negb (framed (spec21 (c_plan c) (c_body c))))
+      obs_is (spec21 plan (c_body c)) b && (groups_eqb (c_groups c) g || negb (framed (spec21 plan (c_body c))))
       (* the region formulation and the depth-counter formulation coincide whenever the plan uses only the four
          modes of the theorem *)
       && (negb (forallb (fun e => match snd (fst e) with MBefore | MAfter | MAlternate | MBlockAlt => true | _ => false end) (c_plan c))
